@@ -947,23 +947,50 @@ def r06_1_flags(ctx: Ctx, rule: str = "R06.1") -> None:
     ex = m.func(IT_ENGINE, "Engine.execute")
     rel = [p for p in ex.params if p != "self"][0]
     found = {"empty": False, "identity": False}
+    J = B.atom("TRUTH", f"{rel}.is_join_identity")
+    Z = B.atom("EQ", "0", f"{rel}.max_rows")
+    TRIV = B.atom("TRUTH", f"{rel}.is_trivial")
+
+    def _subst(f):
+        if f == TRIV:
+            return B.disj([J, Z])  # R06.1 pins is_trivial to exactly this definition
+        if f[0] == "not":
+            return B.neg(_subst(f[1]))
+        if f[0] in ("and", "or"):
+            parts = [_subst(x) for x in f[1]]
+            return B.conj(parts) if f[0] == "and" else B.disj(parts)
+        return f
+
+    theory = B.neg(B.conj([J, Z]))  # a join identity has exactly one row
     for p in ctx.paths(ex):
         if p.outcome != "return" or any(s.kind == "case" for s in p.steps):
             continue
-        facts = path_facts(p)
-        v = src(p.value)
-        if has_fact(facts, "EQ", tuple(sorted(("0", f"{rel}.max_rows"))), True):
+        v = src(p.value).replace(" ", "")
+        constant = v in ("RowSequence([])", "RowSequence([{}])") or (isinstance(p.value, ast.Call) and bool(p.value.args) and isinstance(p.value.args[0], (ast.List, ast.Tuple)) and all(isinstance(e, (ast.Dict, ast.Constant)) for e in p.value.args[0].elts))
+        cond = B.conj([_subst(B.path_condition(p)[0]), theory])
+        if len(B.atoms_of(cond)) > B.MAX_ATOMS:
+            raise AnalysisError("execute(): too many tests before the dispatch for a truth table")
+        says_empty = B.implies(cond, Z)[0]
+        says_identity = B.implies(cond, J)[0]
+        if says_empty:
             found["empty"] = True
             if v == "RowSequence([])":
                 run.ok(rule, "execute:max_rows==0")
             else:
-                run.fail(rule, "execute:max_rows==0", f"a relation with max_rows == 0 executes to `{v}` instead of no rows", fi=ex, node=p.node)
-        elif has_fact(facts, "TRUTH", (f"{rel}.is_join_identity",), True):
+                run.fail(rule, "execute:max_rows==0", f"a relation with max_rows == 0 executes to `{src(p.value)}` instead of no rows", fi=ex, node=p.node)
+        elif says_identity:
             found["identity"] = True
             if v == "RowSequence([{}])":
                 run.ok(rule, "execute:is_join_identity")
             else:
-                run.fail(rule, "execute:is_join_identity", f"a join identity executes to `{v}` instead of exactly one empty row", fi=ex, node=p.node)
+                run.fail(rule, "execute:is_join_identity", f"a join identity executes to `{src(p.value)}` instead of exactly one empty row", fi=ex, node=p.node)
+        elif constant:
+            what = "no rows" if v == "RowSequence([])" else "one empty row"
+            need = "max_rows == 0" if what == "no rows" else "is_join_identity"
+            run.fail(rule, f"execute:constant:{what.replace(' ', '-')}", f"execute() answers `{src(p.value)}` ({what}) on a path whose tests do not imply `{need}`: which trivial case applies is decided by the row bounds, not by anything else (a relation without columns can be empty, one with columns cannot be the join identity)", fi=ex, node=p.node, details=describe(p))
+    for kind, flag in (("empty", "max_rows == 0"), ("identity", "is_join_identity")):
+        if not found[kind]:
+            run.fail(rule, f"execute:{kind}:short-circuit", f"execute() has no short-circuit for `{flag}`", fi=ex)
     join = ctx.op_class("Join")
     jb = join.methods["_begin_apply"]
     jp = [q for q in jb.params if q != "self"]
